@@ -26,10 +26,10 @@ REQUIRED = ["eval:id_star", "C07:estimands-evaluated", "C07:estimands-correct", 
 TIMEOUT = {"quick": 900, "thorough": 7200}
 
 
-def run_case(ctx, gd, ev, cls):
+def run_case(ctx, gd, ev, cls, g=None):
     from y0.algorithm.identify import id_star
 
-    g = gg.to_nx(gd)
+    g = gg.to_nx(gd) if g is None else g
     kernel.LOG.reset_case({"graph": gd, "event": ev})
     res = None
     try:
@@ -58,6 +58,18 @@ def run_shard(ctx):
             continue
         classes[cls] = classes.get(cls, 0) + 1
         run_case(ctx, gd, ev, cls)
+    # edit histories: one graph object queried, edited in place through its public mutators, queried again
+    for _ in range(ctx.share({"quick": 400, "thorough": 8000}[ctx.tier])):
+        gd = gg.random_admg(rng, rng.choice([2, 3, 3, 4]))
+        g = gg.to_nx(gd)
+        for _s in range(5):
+            for _q in range(2):
+                ev, cls = gev.random_event(rng, gd)
+                if ev and cls != "contradictory_pair":
+                    classes["history:" + cls] = classes.get("history:" + cls, 0) + 1
+                    run_case(ctx, gd, ev, cls, g=g)
+            if len(gd["nodes"]) < 5:
+                gd = gg.edit_inplace(g, gd, rng)
     ctx.extras["event_classes"] = classes
 
 
